@@ -24,7 +24,7 @@ func init() {
 				"(args) every call of a formula function passes, in the slots the other calls agree on, the supply, the reserve and the reserve ratio of one and the same coin (roles traced to coins.Info.Volume / coins.Info.Reserve / coins.Model.CCrr through accessors, the bus copy and constructors); " +
 				"(domain) every call of a sale formula in consensus code, whose Pow base is 1 − amount/X, is preceded on every path by a decision that leaves amount ≤ X for that same coin (a direct comparison or CheckReserveUnderflow's non-error outcome), or is one of the block-level sites whose amount is a part of a stake of that coin (listed with reasons) — otherwise a crafted amount reaches Pow with a negative base and the node panics.",
 			Assumptions: append([]string{"math/big methods do what their documentation says (Add/Sub/Mul/Quo set the receiver and return it; Float.Int truncates toward zero)", "rounding of intermediate results to the 100-bit precision is not modelled"}, stdAssumptions...),
-			Rules:       []string{"C12.formula", "C12.full", "C12.pure", "C12.pow", "C12.args", "C12.domain"},
+			Rules:       []string{"C12.formula", "C12.full", "C12.pure", "C12.pow", "C12.args", "C12.domain", "C12.prec"},
 		},
 		Run: runC12,
 	})
@@ -273,6 +273,7 @@ type formulaFn struct {
 }
 
 func runC12(c *core.Ctx) {
+	defer checkFloatPrecision(c, "C12.prec")
 	var fpkg *ssa.Package
 	for short, p := range c.SSAPkgs {
 		if short == "formula" {
@@ -425,7 +426,7 @@ func runC12(c *core.Ctx) {
 		dord[k]++
 		key := fmt.Sprintf("%s#%d", k, dord[k])
 		nd++
-		if why, ok := c12StakeSites[c12SiteName(si.s.Fn)]; ok {
+		if why, ok := c12StakeSites[c12SiteName(c.GroupRoot(c12Decl(si.s.Fn)))]; ok {
 			c.OK("C12.domain", key, si.s.Pos(), "block-level site, amount is part of a stake of the coin: "+why)
 			continue
 		}
@@ -434,6 +435,14 @@ func runC12(c *core.Ctx) {
 			"a path reaches this sale formula without a decision that leaves amount ≤ "+si.f.domainRole+" of that coin ("+detail+"): Pow would be called with a negative base and panic")
 	}
 	c.Floor("C12.domain", nd, 6, "sale-formula call sites in consensus code")
+}
+
+// c12Decl: the enclosing declared function of a closure.
+func c12Decl(fn *ssa.Function) *ssa.Function {
+	for fn.Parent() != nil {
+		fn = fn.Parent()
+	}
+	return fn
 }
 
 // c12SiteName: the enclosing declared function (closures are named after it).
@@ -470,7 +479,7 @@ func c12ConsensusFns(c *core.Ctx) map[*ssa.Function]bool {
 
 // paramAtom is the atom bindParams gives parameter i of fn.
 func paramAtom(al *algebra, fn *ssa.Function, i int) ratf {
-	return al.atom("param", fn.Params[i].Name())
+	return al.atom("param", core.ParamName(fn.Params[i]))
 }
 
 func checkFormulaFn(c *core.Ctx, al *algebra, name string, f *formulaFn) {
@@ -801,7 +810,7 @@ func domainSummary(c *core.Ctx, roles *c12Roles, h *ssa.Function) []domSummary {
 						ev.bindParams()
 						ev.run(ret)
 						X := al.atom("role", role, al.atom("value", core.Path(h.Params[ci])))
-						A := al.atom("param", h.Params[ai].Name())
+						A := al.atom("param", core.ParamName(h.Params[ai]))
 						good := false
 						conds := ev.conds()
 						if m := cmpOf(conds, X, A); !m[-1] {
@@ -898,4 +907,65 @@ func globalInitNonNeg(c *core.Ctx, path string) bool {
 		}
 	}
 	return false
+}
+
+// checkFloatPrecision — C12.prec. A big.Float made by big.NewFloat has 53 bits of mantissa, and
+// every arithmetic method rounds its result to the precision of its *receiver* (when that is not
+// 0), whatever the operands carry. In the packages that evaluate the bonding curve (formula,
+// math) no arithmetic or assignment method may therefore have as its receiver an object that
+// comes straight from big.NewFloat without a SetPrec in between — the value would silently be
+// computed in double precision and only widened afterwards (relative errors of 1e-16 instead of
+// 1e-30: dust conversions that return 0 or more than the curve allows).
+func checkFloatPrecision(c *core.Ctx, rule string) {
+	rounding := map[string]bool{"Add": true, "Sub": true, "Mul": true, "Quo": true, "Sqrt": true, "Set": true, "SetInt": true, "SetInt64": true, "SetUint64": true, "SetFloat64": true, "SetRat": true, "Neg": true, "Abs": true}
+	n, bad := 0, 0
+	for _, pk := range []string{"formula", "math"} {
+		for _, fn := range c.SrcFuncs(pk) {
+			if fn.Blocks == nil {
+				continue
+			}
+			k := 0
+			for _, s := range core.Sites(fn) {
+				if !strings.HasPrefix(s.Callee, "(*math/big.Float).") || !rounding[s.Callee[len("(*math/big.Float)."):]] || len(s.Common.Args) == 0 {
+					continue
+				}
+				n++
+				recv := s.Common.Args[0]
+				from := ""
+				seen := map[ssa.Value]bool{}
+				var walk func(v ssa.Value, d int)
+				walk = func(v ssa.Value, d int) {
+					if v == nil || seen[v] || d > 8 || from != "" {
+						return
+					}
+					seen[v] = true
+					switch x := v.(type) {
+					case *ssa.Phi:
+						for _, e := range x.Edges {
+							walk(e, d+1)
+						}
+					case *ssa.Call:
+						name := core.CalleeName(&x.Call)
+						switch {
+						case name == "math/big.NewFloat":
+							from = c.PosStr(x.Pos())
+						case strings.HasPrefix(name, "(*math/big.Float).") && name != "(*math/big.Float).SetPrec" && name != "(*math/big.Float).Copy" && len(x.Call.Args) > 0:
+							// methods return their receiver (Copy takes the source's precision)
+							walk(x.Call.Args[0], d+1)
+						}
+					}
+				}
+				walk(recv, 0)
+				if from != "" {
+					bad++
+					k++
+					c.Bad(rule, fmt.Sprintf("%s/%s#%d", core.ShortFn(fn), s.Callee[len("(*math/big.Float)."):], k), s.Pos(), "the receiver of this operation is the 53-bit object made by big.NewFloat at "+from+" (no SetPrec in between): the result is rounded to double precision, far below the working precision of the curve evaluation")
+				}
+			}
+		}
+	}
+	if bad == 0 {
+		c.OK(rule, "receivers", token.NoPos, fmt.Sprintf("%d big.Float operations in formula and math: none has a bare big.NewFloat object as its receiver", n))
+	}
+	c.Floor(rule, n, 60, "big.Float arithmetic/assignment operations in formula and math")
 }
